@@ -162,6 +162,7 @@ def snap_diff(a, b):
 
 def mutable_ids(root, skip_keys=("jaxnodes", "jaxedges", "base")):
     """ids of mutable objects reachable from root through __dict__, containers and DataFrames"""
+    import functools
     import pandas as pd
     import types
     seen, out = set(), {}
@@ -194,7 +195,7 @@ def mutable_ids(root, skip_keys=("jaxnodes", "jaxedges", "base")):
             for i, v in enumerate(obj):
                 stack.append((v, f"{path}[{i}]"))
             continue
-        if hasattr(obj, "func") and hasattr(obj, "keywords"):  # functools.partial
+        if isinstance(obj, functools.partial):  # (not hasattr: a jaxley Module answers every attribute name, F20)
             stack.append((obj.keywords, path + ".keywords"))
             stack.append((obj.args, path + ".args"))
             continue
@@ -264,8 +265,11 @@ def run_case(case, rec):
         # aliasing
         a, b = mutable_ids(m), mutable_ids(c)
         shared = sorted(a[i] for i in set(a) & set(b))
-        rec.check("aliasing", not shared, what="mutable objects shared between original and copy", method=method, shared=shared[:10],
-                  n_mutable=len(a), **tag)
+        if len(a) < 8 or len(b) < 8:
+            rec.skipped("aliasing", f"object-graph walk saw only {len(a)}/{len(b)} mutable objects")  # a monitor that saw nothing decides nothing
+        else:
+            rec.check("aliasing", not shared, what="mutable objects shared between original and copy", method=method, shared=shared[:10],
+                      n_mutable=len(a), **tag)
         # simulation
         try:
             out1 = rec.call("sim_equal", simulate, c, backend, where=f"copy by {method}")
